@@ -191,6 +191,8 @@ C_Handle(ev) ==
     /\ (MustGrow(ev) => (Grew(ev) \/ ReallocFailed(ev)))          \* NULL, negative or too-small size: reallocate
     /\ (ev.ret = "out" => ev.postsize >= SIZEOF)
     /\ (Grew(ev) => ev.postdata = 1 /\ ev.postsize = SIZEOF /\ ev.blocksize >= SIZEOF)
+    \* "zero-initialised after": a block that was grown (moved or resized in place) comes back with its application fields cleared
+    /\ ((Grew(ev) /\ "appzero" \in DOMAIN ev) => ev.appzero = 1)
     /\ (~Grew(ev) => ev.moved = 0 /\ ev.postsize = ev.presize)
     /\ (ev.ret = "out" => ev.postdata = 1 /\ ev.blocksize >= SIZEOF)
     /\ ev.ret \in {"null", "out"}
